@@ -391,7 +391,8 @@ def one_program(ctx, alg, cfg, name, prog, plain_ns, reg_ns):
         inexact = not all(is_exact(v) for v in list(got_e.values()) + list(want_e.values()))
         # float results: generated code prints non-dyadic constants with 15 digits and evaluates in another order, which an
         # ill-conditioned expression amplifies; 1e-6 relative is "to rounding" here, exact comparison otherwise
-        bad = elem_diff(got_e, want_e, tol=1e-6 if inexact else 1e-9)
+        # a single-precision constant (N_F32) is carried with single precision through printing and evaluation: 1e-4 is "to rounding" there
+        bad = elem_diff(got_e, want_e, tol=(1e-4 if 'N_F32' in prog.expr else 1e-6) if inexact else 1e-9)
         if bad and not all(is_exact(v) for v in list(got_e.values()) + list(want_e.values())):
             # floats are involved (float literal, sqrt family, 1/k! constants): a symbolically expanded high-degree expression can
             # differ from the step-by-step evaluation by cancellation error alone. Decide by re-evaluating both sides with
